@@ -343,12 +343,15 @@ def run(ctx) -> None:
             outer = min(loops, key=lambda n: n.lineno)
             start = [t for t, l, _ in outer.succ if l == "T"][0]
 
-            def ef(a, b, l, i):
-                if a in tests and l == "F":
-                    return False
-                if a is outer:
-                    return False
-                return True
+            from sa.cfg import both, specialize, test_atoms
+
+            exc_atoms = {src(a) for t in tests for a in test_atoms(t.ast) if isinstance(a, ast.Call) and dotted(a.func) == "isinstance" and "BaseException" in src(a)}
+            spec = specialize({a: True for a in exc_atoms}, cfg)
+
+            def stay(a, b, l, i):
+                return a is not outer
+
+            ef = both(stay, spec)
 
             for w in writes:
                 bad = reaches(start, w, ef)
